@@ -14,6 +14,7 @@ Safety model (bank-grade, fail closed):
 
 import json
 import logging
+import posixpath
 import time
 from typing import Dict, List, Optional, Set
 
@@ -149,7 +150,7 @@ class GarbageCollector:
                     f"Nothing was deleted."
                 ) from e
             for df in data_files:
-                reachable_data_files.add(self._normalize_path(df.file_path))
+                reachable_data_files.add(self._referenced_path(df.file_path))
 
         logger.info(f"Found reachable: {len(reachable_manifest_lists)} manifest lists, "
                     f"{len(reachable_manifests)} manifests, {len(reachable_data_files)} data files")
@@ -256,7 +257,7 @@ class GarbageCollector:
             return fallback
         if not isinstance(target, str) or not target:
             return fallback
-        return {self._normalize_path(target)}
+        return {self._referenced_path(target)}
 
     def _list_prefix(self, prefix: str) -> List[str]:
         """List a prefix and validate the WHOLE listing before anything is deleted."""
@@ -315,6 +316,21 @@ class GarbageCollector:
         if deleted_count:
             logger.info(f"Deleted {deleted_count} orphan file(s) under {prefix}")
         return deleted_count
+
+    def _referenced_path(self, path: str) -> str:
+        """The listed path a manifest entry or marker payload refers to.
+
+        On the local backend 'data//x', 'data/./x' and 'data/sub/../x' are
+        accepted spellings of 'data/x' (pre-built files queued with
+        append_files keep the spelling they were given; the read path resolves
+        it). The listing always says 'data/x', so a reference compared as a raw
+        string never matched and a collection deleted the live file. On object
+        storage keys are literal - there the spelling IS the key.
+        """
+        norm = self._normalize_path(path)
+        if isinstance(self.storage, LocalStorageBackend) and norm:
+            return posixpath.normpath(norm)
+        return norm
 
     def _normalize_path(self, path: str) -> str:
         """Table-relative form of a manifest, marker or listing path.
